@@ -541,6 +541,10 @@ class Inliner:
                     out.extend(self.process_block(pre, cls, depth + 1, owner))
                     if isinstance(s, ast.Expr) and isinstance(newv, ast.Constant):
                         continue        # the call statement of an inlined procedure: its value (None) is not a statement
+                # helper calls inside a store target (x[_h(i)] = v): only one-expression helpers - nothing may be hoisted over the evaluation of the value
+                for t in (s.targets if isinstance(s, ast.Assign) else ([s.target] if isinstance(s, (ast.AugAssign, ast.AnnAssign)) else [])):
+                    if isinstance(t, (ast.Subscript, ast.Attribute, ast.Tuple, ast.List)) and any(isinstance(x, ast.Call) for x in ast.walk(t)):
+                        self.rewrite_expr(t, cls, depth, owner, no_hoist=True)
             elif isinstance(s, ast.Raise) and s.exc is not None:
                 pre, newv = self.rewrite_expr(s.exc, cls, depth, owner)
                 if pre or newv is not s.exc:
@@ -551,6 +555,8 @@ class Inliner:
                 if pre or newv is not s.test:
                     s.test = newv
                     out.extend(self.process_block(pre, cls, depth + 1, owner))
+            elif isinstance(s, (ast.While, ast.Assert)):
+                self.rewrite_expr(s.test, cls, depth, owner, no_hoist=True)
             elif isinstance(s, ast.For):
                 pre, newv = self.rewrite_expr(s.iter, cls, depth, owner)
                 if pre or newv is not s.iter:
@@ -559,13 +565,13 @@ class Inliner:
             out.append(s)
         return out
 
-    def rewrite_expr(self, e, cls, depth, owner):
+    def rewrite_expr(self, e, cls, depth, owner, no_hoist=False):
         """replace helper calls inside expression e; returns (prefix statements, new expression)"""
         prefix = []
         me = self
 
         class T(ast.NodeTransformer):
-            nested = 0          # inside a lambda / comprehension only helpers that are one expression can be inlined (nothing can be hoisted)
+            nested = 1 if no_hoist else 0          # inside a lambda / comprehension only helpers that are one expression can be inlined (nothing can be hoisted)
 
             def _nested(self, n):
                 self.nested += 1
